@@ -45,6 +45,11 @@ def load(backend="snarkjs", symbolic=False, quiet=True):
             sys.path.insert(0, stub)
     if backend == "qaptools":
         os.environ.setdefault("QAPTOOLS_BIN", os.path.join(VERIF, "stubs", "qaptools_bin"))
+        import atexit, shutil, tempfile
+        d = tempfile.mkdtemp(prefix="verif_qap_")
+        atexit.register(shutil.rmtree, d, True)
+        os.environ["PYSNARK_KEYDIR"] = d          # every file the backend writes goes to a per-process scratch directory
+        os.environ["PYSNARK_PROOFDIR"] = d
     saved_stdout = sys.stdout
     import pysnark.runtime as rt
     if rt.backend_name != backend:
@@ -204,5 +209,7 @@ def reset(e, bitlength=None, resolution=None):
 def snapshot(e):
     """copy of what the recorder holds: (pubvals, privvals, constraints as 3 dicts var->coeff)"""
     rec = e.rec
+    if not hasattr(rec, "pubvals"):
+        return ([], [], [])            # file-based backend (qaptools): nothing recorded in memory
     return (list(rec.pubvals), list(rec.privvals),
             [[dict(c[0].lc), dict(c[1].lc), dict(c[2].lc)] for c in rec.constraints])
